@@ -104,7 +104,9 @@ class Registry:
         self.with_hooks = []
         try:
             from .grid import GridHook
+            from .symdict import SymDictHook
             self.hooks['grid'] = GridHook()
+            self.hooks['symdict'] = SymDictHook()
         except ImportError:        # concrete harness: no solver, no symbolic heap
             pass
 
